@@ -181,14 +181,14 @@ pub fn run(ctx: &Ctx) -> i32 {
         let c = &structured[idx as usize];
         check_case(ctx, "structured", idx, &c.label, &c.cfg, &c.entries, idx % 5 == 0);
     });
-    let n = ctx.n(8000, 80_000);
+    let n = ctx.n(8000, 300_000);
     ctx.par("random", n, true, |idx, rng: &mut Rng| {
         let budget = if rng.chance(1, 25) { 1 << 20 } else { 60_000 };
         let (entries, cfg, shape) = gen::gen_file_case(rng, budget);
         check_case(ctx, "random", idx, &format!("random/{:?}", shape), &cfg, &entries, rng.chance(1, 6));
     });
     // deep-index files (several blocks at index depth >= 2)
-    let n = ctx.n(1500, 10_000);
+    let n = ctx.n(1500, 40_000);
     ctx.par("deep", n, true, |idx, rng: &mut Rng| {
         let levels = *rng.pick(&[2u8, 2, 3, 3, 4, 7, 255]);
         let cnt = rng.range(20, 160);
